@@ -78,6 +78,28 @@ def gen_history(rng, n, kind='random'):
         dec('D', a)
         ops.append({'op': 'evalest', 'obj': 'D', 'smiles': b, 'eid': 1, 'prop': 's', 'T': 400.0, 'elements': True})
         return ops, objs
+    if kind == 'reload':
+        # a library object is merged into; the SAME library loaded again afterwards is as in a fresh process
+        la = rng.choice(['SalciccioliGA2012', 'GRWSurface2018', 'BensonGA', 'PPY'])
+        lb = {'SalciccioliGA2012': 'GRWSurface2018', 'GRWSurface2018': 'SalciccioliGA2012', 'BensonGA': 'PPY', 'PPY': 'BensonGA'}[la]
+        load('X0', la), load('Y', lb)
+        ops.append({'op': 'merge', 'obj': 'X0', 'src': 'Y'})
+        load('X1', la)
+        ops.append({'op': 'fingerprint', 'obj': 'X1'})
+        smi = rng.choice(MOLS[la])
+        dec('X1', smi)
+        ev('X1', smi, 'h')
+        ops.append({'op': 'fingerprint', 'obj': 'Y'})
+        return ops, objs
+    if kind == 'molobj':
+        # ONE molecule object (explicit hydrogens) handed to several library objects, and to the same one again
+        la = rng.choice(LIBS)
+        lb = rng.choice(LIBS)
+        load('M1', la), load('M2', lb)
+        smi = rng.choice(MOLS[la])
+        for o in ('M1', 'M2', 'M1', 'M2'):
+            ops.append({'op': 'decompose_mol', 'obj': o, 'smiles': smi, 'mid': 0})
+        return ops, objs
     if kind == 'spellings':
         # two spellings of one species through ONE object, in both orders (for fused aromatics they decompose differently:
         # whatever each gives in a fresh process it must give here)
@@ -173,6 +195,8 @@ def reference(tree, op):
         ops.append({'op': 'decompose', 'obj': x, 'smiles': op['smiles']})
     if op['op'] == 'eval':
         ops.append(dict(op, obj=x))
+    if op['op'] == 'decompose_mol':
+        ops.append(dict(op, obj=x, mid=0))
     if op['op'] in ('estimate', 'evalest'):
         ops.append({'op': 'decompose', 'obj': x, 'smiles': op['smiles']})
         ops.append({'op': 'estimate', 'obj': x, 'smiles': op['smiles'], 'eid': 0})
@@ -211,6 +235,8 @@ def run(ctx):
     hs += [gen_history(rng, 0, 'uq') for _ in range(ctx.n(2, 30))]
     hs += [gen_history(rng, 0, 'deferred') for _ in range(ctx.n(3, 40))]
     hs += [gen_history(rng, 0, 'spellings') for _ in range(ctx.n(3, 20))]
+    hs += [gen_history(rng, 0, 'reload') for _ in range(ctx.n(2, 20))]
+    hs += [gen_history(rng, 0, 'molobj') for _ in range(ctx.n(3, 30))]
     with ThreadPoolExecutor(vlib.NCPU) as ex:
         runs = list(ex.map(lambda h: vlib.run_impl('history', {'cases': [{'ops': h[0]}]}, timeout=900), hs))
     # the single-operation references, each in a fresh process
